@@ -358,9 +358,12 @@ class ConvexSpheropolyhedron(Shape3D):
         """
         old_centroid = self._polyhedron.centroid
         self._polyhedron.centroid = np.array([0, 0, 0])
-        data = self.to_json(["vertices", "radius", "volume"])
-        hoomd_dict = _map_dict_keys(data, key_mapping=_hoomd_dict_mapping)
-        hoomd_dict["centroid"] = [0, 0, 0]
-
-        self._polyhedron.centroid = old_centroid
+        try:
+            data = self.to_json(["vertices", "radius", "volume"])
+            hoomd_dict = _map_dict_keys(data, key_mapping=_hoomd_dict_mapping)
+            # Copy the geometry: the shape's own array moves back below.
+            hoomd_dict["vertices"] = np.array(hoomd_dict["vertices"])
+            hoomd_dict["centroid"] = [0, 0, 0]
+        finally:
+            self._polyhedron.centroid = old_centroid
         return hoomd_dict
